@@ -140,32 +140,46 @@ def encodeAll (mm : Nat) (ref : List Nat) (tgts : List (List Nat)) : Option (Lis
   let tbl := Ragc.Model.LzDiff.buildIndex (Ragc.Model.LzDiff.padRef mm ref) (Ragc.Model.LzDiff.keyLen mm)
   tgts.mapM (Ragc.Model.LzDiff.encode (Ragc.Model.LzDiff.lookup tbl) mm ref)
 
-/-- The parts of a delta stream: every pack of the `Packs` machine (full packs as they are
-emitted, then the partial pack of `finalize`), laid out and stored. -/
-def packParts (zc : Nat → List Nat → List Nat) (level : Nat) (lz : Bool) (st : PState) : List Blob :=
-  (finish lz st).map fun es => Ragc.SegCompress.storePack zc level (packEntries es)
+/-- What one group stores, before ZSTD and part framing: the reference (LZ groups), the entry
+lists of the packs of its delta stream in order (`Packs.finish`: full packs as they are emitted,
+then the partial pack of `finalize`; the placeholder entry included), and the in-group id of each
+member (by slot). -/
+structure GroupPlan where
+  id : Nat
+  ref : Option (List Nat)
+  packs : List (List (List Nat))
+  ids : List Nat
+deriving Repr, DecidableEq
 
 /-- All flushes of one group's buffer (`flush_pack_compress_only` over the life of the group, and
 the final partial pack): `datas` = the buffered data of its members in arrival order.
-LZ group (`id ≥ 16`): the first member is the reference (stored by `storeReference`, id 0), every
-other member is LZ-encoded against it; raw group: every member is stored as it is. `none`: an LZ
-group without members (never created by the compressor), or `encode` does not answer
-(`min_match_len < 4`, where the Rust `encode` misbehaves). -/
-def writeGroup (cfg : Cfg) (zc : Nat → List Nat → List Nat) (G : GroupDec) (datas : List (List Nat)) :
-    Option GroupOut :=
+LZ group (`id ≥ 16`): the first member is the reference (id 0), every other member is LZ-encoded
+against it; raw group: every member is an entry as it is. `none`: an LZ group without members
+(never created by the compressor), or `encode` does not answer (`min_match_len < 4`, where the
+Rust `encode` misbehaves). -/
+def planGroup (mm : Nat) (G : GroupDec) (datas : List (List Nat)) : Option GroupPlan :=
   if G.id ≥ 16 then
     match datas with
     | [] => none
     | ref :: rest =>
-      match encodeAll cfg.minMatch ref rest with
+      match encodeAll mm ref rest with
       | none => none
       | some deltas =>
         let r := assignAll true PState.init deltas
-        some ⟨G.id, some (Ragc.SegCompress.storeReference zc (fun _ => G.tuples) ref),
-          packParts zc cfg.level true r.1, 0 :: r.2⟩
+        some ⟨G.id, some ref, finish true r.1, 0 :: r.2⟩
   else
     let r := assignAll false PState.init datas
-    some ⟨G.id, none, packParts zc cfg.level false r.1, r.2⟩
+    some ⟨G.id, none, finish false r.1, r.2⟩
+
+/-- The parts of the group's two streams: the reference by `storeReference` (tuple packing as
+decided), every pack laid out (`packEntries`) and stored by `storePack`. -/
+def storeGroup (cfg : Cfg) (zc : Nat → List Nat → List Nat) (tuples : Bool) (P : GroupPlan) : GroupOut :=
+  ⟨P.id, P.ref.map (Ragc.SegCompress.storeReference zc (fun _ => tuples)),
+    P.packs.map (fun es => Ragc.SegCompress.storePack zc cfg.level (packEntries es)), P.ids⟩
+
+def writeGroup (cfg : Cfg) (zc : Nat → List Nat → List Nat) (G : GroupDec) (datas : List (List Nat)) :
+    Option GroupOut :=
+  (planGroup cfg.minMatch G datas).map (storeGroup cfg zc G.tuples)
 
 def writeGroups (cfg : Cfg) (zc : Nat → List Nat → List Nat) (stored : List (List (List (List Nat))))
     (gs : List GroupDec) : Option (List GroupOut) :=
